@@ -101,12 +101,22 @@ Lemma nth_ext_eq : forall (a b : list Z), length a = length b ->
   (forall j, (j < length a)%nat -> nth j a 0 = nth j b 0) -> a = b.
 Proof. intros. apply nth_ext with 0 0; assumption. Qed.
 
+Lemma nth_firstn_lt : forall (l : list Z) n j d, (j < n)%nat -> nth j (firstn n l) d = nth j l d.
+Proof.
+  induction l; intros n j d H; destruct n, j; cbn; try reflexivity; try lia.
+  apply IHl. lia.
+Qed.
+
+Lemma nth_skipn_add : forall (l : list Z) n j d, nth j (skipn n l) d = nth (n + j) l d.
+Proof.
+  induction l; intros n j d; destruct n; cbn [skipn nth Nat.add]; try reflexivity.
+  - now destruct j.
+  - apply IHl.
+Qed.
+
 Lemma sub_nth : forall m off n j, (off + n <= length m)%nat -> (j < n)%nat ->
   nth j (sub m off n) 0 = nth (off + j) m 0.
-Proof.
-  intros. unfold sub. rewrite nth_firstn. destruct (Nat.ltb_spec j n); [|lia].
-  now rewrite nth_skipn.
-Qed.
+Proof. intros. unfold sub. rewrite nth_firstn_lt by assumption. apply nth_skipn_add. Qed.
 
 Lemma sub_splice_disjoint : forall m off bs o n, (off + length bs <= length m)%nat ->
   (o + n <= length m)%nat -> (o + n <= off \/ off + length bs <= o)%nat ->
@@ -131,7 +141,7 @@ Qed.
 Lemma splice_self : forall m off n, (off + n <= length m)%nat -> splice m off (sub m off n) = m.
 Proof.
   intros. apply nth_ext_eq.
-  - rewrite splice_length; rewrite sub_length; lia.
+  - rewrite splice_length by (rewrite sub_length; lia). reflexivity.
   - intros j Hj. rewrite splice_length in Hj by (rewrite sub_length; lia).
     destruct (Nat.ltb_spec j off); [apply splice_nth_outside; rewrite ?sub_length; lia|].
     destruct (Nat.ltb_spec j (off + n)); [|apply splice_nth_outside; rewrite ?sub_length; lia].
